@@ -17,6 +17,12 @@ CLAIMED = {
         "note": "Trusted: z3, symx, C02's affine_transform contract, real numpy reshape/sum on object arrays. Not covered: BatchLoader.binning (polars-backed table), lazy-vs-eager dask images, boundary molecules (C02).",
         "ref": "DESIGN.md §4 C15",
     },
+    "C16": {
+        "text": "Both copies of nd_butterworth_weight executed with a symbolic cut-off: every FFT bin equals 1/(1+(|f|^2/c^2)^order) (rational-function identity decided by z3), DC=1, k<->-k symmetry, half-spectrum = slice of the full one; "
+                "lowpass_filter/_ft (numpy- and backend-level) executed on symbolic images over an opaque linear FFT: identity iff c<=0 or c>=sqrt(3)/2, input transformed once, per-bin weighting, output shape = input shape.",
+        "note": "Trusted: z3, symx, FFTStub (scipy.fft shape rules conformance-tested on 216 shapes; DFT linearity), exact-real model of float32. Bounds: shapes from {1..6}^3 (10 quick / 216 thorough), orders 1..3, filters on <=36-voxel images.",
+        "ref": "DESIGN.md §4 C16",
+    },
 }
 
 NOT_APPLICABLE = {
